@@ -1,5 +1,6 @@
 """C09 - spatial filters keep exactly the particles that lie inside."""
 import math
+import os
 
 import numpy as np
 from hypothesis import strategies as st
@@ -197,6 +198,21 @@ def compare(out, df, a, keep_idx, sig, offset=None):
     return True
 
 
+def check_output_file(out, path, df, sig):
+    """the list written on request is the returned list (EM motl file: float32, 20 canonical fields, row order)"""
+    if not out.check(os.path.isfile(path), f"{sig}:output_file_missing", path):
+        return
+    try:
+        em = oracle.em_read(path)
+    except Exception as e:
+        out.fail(f"{sig}:output_file_not_valid_em", repr(e))
+        return
+    want = df[oracle.MOTL_COLUMNS].to_numpy(dtype=np.float32)
+    if out.check(em["dims"] == (20, len(df), 1), f"{sig}:output_file_dims", f"{em['dims']} for {len(df)} kept particles"):
+        out.check(np.array_equal(em["data"][:, :, 0].T, want), f"{sig}:output_file_is_not_the_cleaned_list", "")
+
+
+
 def run(case):
     import pandas as pd
     from cryocat import cryomotl
@@ -296,16 +312,20 @@ def run(case):
                         rem.add(i)
         order = list(dict.fromkeys(tomo.tolist()))
         keep = [i for t in order for i in range(n) if tomo[i] == t and i not in rem]
+        okw = {"output_file": "cleaned.em"} if case["ids_seed"] % 2 == 0 else {}
         if case["inplace"]:
-            ok, _ = call(out, "clean_by_distance_to_points", lambda: m.clean_by_distance_to_points(P, r))
+            ok, _ = call(out, "clean_by_distance_to_points", lambda: m.clean_by_distance_to_points(P, r, **okw))
             res = m
         else:
             before = m.df.copy()
-            ok, res = call(out, "clean_by_distance_to_points", lambda: m.clean_by_distance_to_points(P, r, inplace=False))
+            ok, res = call(out, "clean_by_distance_to_points", lambda: m.clean_by_distance_to_points(P, r, inplace=False, **okw))
             if ok:
                 out.check(m.df.equals(before), "points:not_inplace_call_modified_list", "")
         if ok:
             compare(out, res.df, a, keep, "points")
+            if okw and len(res.df):
+                out.label("points:output_file")
+                check_output_file(out, "cleaned.em", res.df, "points")
         remx = {i for i in range(n) for q in pts if q[0] == tomo[i] and math.dist(xyz[i], q[1:]) <= r}
         out.nontrivial = 0 < len(keep) < n and remx != rem
         if any(q[0] > len(dims) for q in pts):
@@ -349,16 +369,20 @@ def run(case):
         if any(t not in mask_of for t in tomo):
             out.label("mask:tomogram_not_listed")
         keeps = [mk.copy() for mk in masks]
+        okw = {"output_file": "cleaned.em"} if case["ids_seed"] % 2 == 0 else {}
         if case["inplace"]:
-            ok, _ = call(out, "clean_by_tomo_mask", lambda: m.clean_by_tomo_mask(listed, arg_masks))
+            ok, _ = call(out, "clean_by_tomo_mask", lambda: m.clean_by_tomo_mask(listed, arg_masks, **okw))
             res = m
         else:
             before = m.df.copy()
-            ok, res = call(out, "clean_by_tomo_mask", lambda: m.clean_by_tomo_mask(listed, arg_masks, inplace=False))
+            ok, res = call(out, "clean_by_tomo_mask", lambda: m.clean_by_tomo_mask(listed, arg_masks, inplace=False, **okw))
             if ok:
                 out.check(m.df.equals(before), "mask:not_inplace_call_modified_list", "")
         if ok:
             compare(out, res.df, a, keep, "mask")
+            if okw and len(res.df):
+                out.label("mask:output_file")
+                check_output_file(out, "cleaned.em", res.df, "mask")
         out.check(all(np.array_equal(x, y) for x, y in zip(masks, keeps)), "mask:mask_array_modified", "")
         keepx = []
         out.nontrivial = 0 < len(keep) < n and outside_any
